@@ -12,6 +12,7 @@ import (
 // named shape records a feature tag in Gen.Feat.
 type Cfg struct {
 	MaxLen   int   // upper bound for container lengths when Lens is empty
+	MinLen   int   // lower bound for container lengths
 	Lens     []int // table lengths are drawn from (with MaxLen as fallback)
 	ForceLen int   // >=0: every first-level slice gets exactly this length
 	MaxDepth int
@@ -78,7 +79,11 @@ func (g *Gen) length() int {
 	if len(g.C.Lens) > 0 && g.R.Intn(3) == 0 {
 		return g.C.Lens[g.R.Intn(len(g.C.Lens))]
 	}
-	return g.R.Intn(g.C.MaxLen + 1)
+	n := g.R.Intn(g.C.MaxLen + 1)
+	if n < g.C.MinLen {
+		n = g.C.MinLen
+	}
+	return n
 }
 
 // Time returns a millisecond-aligned instant in a safe window (1971..2037) by default.
@@ -287,6 +292,9 @@ func (g *Gen) fillSlice(v reflect.Value, depth int, pos string) {
 		g.first = true
 	} else if depth > 1 && n > 4 {
 		n = g.R.Intn(5)
+		if n < g.C.MinLen {
+			n = g.C.MinLen
+		}
 	}
 	if depth >= g.C.MaxDepth {
 		n = 0
@@ -328,6 +336,9 @@ func (g *Gen) fillMap(v reflect.Value, depth int, pos string) {
 	}
 	if depth > 1 && n > 3 {
 		n = g.R.Intn(4)
+		if n < g.C.MinLen {
+			n = g.C.MinLen
+		}
 	}
 	if depth >= g.C.MaxDepth {
 		n = 0
